@@ -831,7 +831,16 @@ public:
                         {
                             return;
                         }
-                        visitor.half_value(static_cast<uint16_t>(val), semantic_tag::none, *this, ec);
+                        semantic_tag half_tag = semantic_tag::none;
+                        if (other_tags_[item_tag])
+                        {
+                            if (raw_tag_ == 1)
+                            {
+                                half_tag = semantic_tag::epoch_second;
+                            }
+                            other_tags_[item_tag] = false;
+                        }
+                        visitor.half_value(static_cast<uint16_t>(val), half_tag, *this, ec);
                         if (JSONCONS_UNLIKELY(ec))
                         {
                             return;
